@@ -15,8 +15,34 @@ KINDS = ["static", "static", "vmap", "repeat", "scan", "switch", "or_else", "mix
 
 
 @st.composite
+def st_vector_then_site(draw):
+    """static body: a vmap / repeat applied directly to flip (3-4 elements) followed by further flip sites --
+    independence between the elements of a vector site and its sibling addresses"""
+    n = draw(st.integers(3, 4))
+    flip = {"k": "dist", "name": "flip"}
+    pe = gfi_strat.st_param("prob", 1)
+    if draw(st.booleans()):
+        first = {"addr": "xs", "callee": {"k": "repeat", "g": flip, "n": n}, "args": [draw(pe)]}
+    else:
+        first = {"addr": "xs", "callee": {"k": "vmap", "g": flip, "axes": [0], "n": n}, "args": [["vec", [draw(pe) for _ in range(n)]]]}
+    stmts = []
+    lead = draw(st.integers(0, 1))
+    for j in range(lead):
+        stmts.append({"addr": f"w{j}", "callee": flip, "args": [draw(pe)]})
+    stmts.append(first)
+    for j in range(draw(st.integers(1, 2))):
+        stmts.append({"addr": f"y{j}", "callee": flip, "args": [draw(gfi_strat.st_param("prob", 1 + len(stmts)))]})
+    node = {"k": "static", "n": 1, "stmts": stmts, "ret": ["v", 0]}
+    return {"node": node, "args": [draw(gfi_strat.st_float())]}
+
+
+@st.composite
 def case_strategy(draw):
-    prog = draw(gfi_strat.st_program(cfg=CFG, kinds=KINDS))
+    if draw(st.integers(0, 3)) == 0:
+        prog = draw(st_vector_then_site())
+        prog["family"] = "vector-then-site"
+    else:
+        prog = draw(gfi_strat.st_program(cfg=CFG, kinds=KINDS))
     prog["key"] = draw(st.integers(0, 2**31 - 1))
     prog["flag_repr"] = "arr"
     prog["idx_repr"] = "arr"
@@ -97,7 +123,7 @@ def check_case(case, ctx=None, n1=None):
     if ctx is not None:
         kinds = sorted(k for k in gfi_strat.node_kinds(node) if not k.startswith("dist:"))
         nsites = max(len([p for p in asg]) for asg, _lp, _r in outcomes)
-        ctx.note_case(case, nontrivial=nsites >= 2 and len(outcomes) >= 3, classes=["top:" + node["k"], "op:" + case.get("op", "simulate"), f"outcomes:{min(len(table), 16) // 4 * 4}+"] + ["has:" + k for k in kinds])
+        ctx.note_case(case, nontrivial=nsites >= 2 and len(outcomes) >= 3, classes=["top:" + node["k"], "family:" + case.get("family", "grammar"), "op:" + case.get("op", "simulate"), f"outcomes:{min(len(table), 16) // 4 * 4}+"] + ["has:" + k for k in kinds])
         ctx.extra["samples_drawn"] = ctx.extra.get("samples_drawn", 0) + n1
 
 
